@@ -83,7 +83,8 @@ func (g *ProgGen) followUp(r *Rng) string {
 		opts = append(opts, c, c+" + "+c, "&"+c+".bonus = 3", "&"+c+".bonus ?? 0", c+".compute()")
 	}
 	for _, a := range g.arrs {
-		opts = append(opts, a+"[0] = 42", a+".push(7)", a+".len()", a+" + [1]", a+"[0:1]", a)
+		opts = append(opts, a+"[0] = 42", a+".push(7)", a+".len()", a+" + [1]", a+"[0:1]", a,
+			a+".push(3); b9 = "+a+" + [4]; c9 = "+a+" + [5]; b9", a+".pop(); b9 = "+a+" + [7]; "+a+".push(9); b9", "b9 = "+a+" + [4]; b9[0] = 99; "+a)
 	}
 	for _, d := range g.dicts {
 		opts = append(opts, d+".k = 5", d+"['hp']", d+".len()", d+".keys().len()", d, d+" == "+d)
